@@ -1,5 +1,6 @@
 """Adapter for Money.tla: exchange rates, money x rate, currency mixing, ISO table."""
 import decimal
+import json
 import numbers
 import os
 import xml.etree.ElementTree as ET
@@ -117,6 +118,8 @@ def run_case(w, c):
                 ev['obs'] = err(exc)
         elif op == 'rate_invert':
             r = w.mk_rate(c['r'])
+            if c.get('via') == 'inv':
+                r = r.inverted()          # the operand is itself the product of an inversion
             ev['r'] = proj_rate(r)
             try:
                 ev['obs'] = proj_rate(r.inverted())
@@ -189,6 +192,20 @@ def run_case(w, c):
             a = w.Money(mk_amount(c['a'], 'dec'), w.cur[c['c1']])
             b = w.Money(mk_amount(c['b'], 'frac' if c.get('k', 0) % 2 else 'dec'), w.cur[c['c2']])
             o = dict(st='err', mro=[], t='', cur='', ongrid=False, exact=False, b=False)
+            if c.get('pre') == 'nested':
+                # the same converter entered again inside another one's block: with A: with B: with A - all left
+                from quantity.money import MoneyConverter
+                cA, cB = MoneyConverter(w.cur[c['c1']]), MoneyConverter(w.cur[c['c1']])
+                for cv_, r_ in ((cA, 2), (cB, 3)):
+                    if c['c1'] != c['c2']:
+                        cv_.update(None, [(w.cur[c['c2']], r_, 1)])
+                try:
+                    with cA:
+                        with cB:
+                            with cA:
+                                pass
+                except Exception:
+                    pass
             if c.get('pre') in ('block', 'block_exc'):
                 # a converter that knows the pair was active in a with-block that has been left (normally / by an
                 # exception): no converter is active any more
@@ -311,6 +328,10 @@ def run_case(w, c):
                 try:
                     if c['how'] == 'str':
                         m = M('%s %s' % (c['text'], sym))
+                    elif c['how'] == 'unitmul':
+                        m = mk_value(c['amtv']) * cur
+                    elif c['how'] == 'unitrmul':
+                        m = cur * mk_value(c['amtv'])
                     elif c['how'] == 'sum':
                         x = M(mk_value(c['amtv']), cur)
                         m = x + x - x
@@ -373,10 +394,17 @@ def price_world(w, decl):
     return _PRICE[key]
 
 
+_RATE_OBJ = {}
+
+
 def price_case(w, c):
     PPM, units, Mass, mass = price_world(w, c['decl'])
     p = c['p']
-    r = w.mk_rate(c['r'])
+    # one rate object per stored rate and process: applied again and again (a price list converted with one rate)
+    rk = json.dumps(c['r'], sort_keys=True)
+    if rk not in _RATE_OBJ:
+        _RATE_OBJ[rk] = w.mk_rate(c['r'])
+    r = _RATE_OBJ[rk]
     o = dict(st='err', mro=[], c='', m='', a=qjson(0), sametype=False)
     try:
         amt = mk_amount([p['n'], p['d']], p.get('rep', 'dec'))
